@@ -80,7 +80,10 @@ Definition remove_nasty_arc (acc : accessor) (m : lmap) (ins del : bool)
       match lookup m former with
       | None => Raise KeyError
       | Some ls => if memZ latter ls
-                   then Ok (acc', lmap_remove m former latter, (former, latter), filter (fun x => 0 <? x) flat)
+                   then match filter (fun x => 0 <? x) flat with
+                        | [] => Raise IndexError   (* score_record[0] on an empty record: no positive score at all *)
+                        | pos => Ok (acc', lmap_remove m former latter, (former, latter), pos)
+                        end
                    else Raise ValueError
       end
   end.
